@@ -517,17 +517,21 @@ func c03Build(c *Ctx, sx *symx.Ctx, F []string) {
 		if !ok {
 			return
 		}
-		if st.Val == lens {
+		if viaCell(st.Val, lens) {
 			_, isDL := ssau.IsFieldLoad(ia.X, dbPkg+".universalIndex", "docLens")
 			lensOK = isDL && ia.Index == docLoop.Index
 		}
-		if st.Val == tf {
+		if viaCell(st.Val, tf) {
 			tfOK = ia.Index == docLoop.Index
 			perDoc = ia.X
 		}
 	})
 	r.Check(lensOK, "O-3", fk+"#docLens-at-i", c.P.Pos(ic.Pos()), "idx.docLens[i] = lengths of command i", "the lengths returned for command i are not stored at idx.docLens[i]")
-	r.Check(tfOK, "O-3", fk+"#perDoc-at-i", c.P.Pos(ic.Pos()), "perDoc[i] = term frequencies of command i", "the term map returned for command i is not stored at index i of the per-document table")
+	if perDoc == nil {
+		// no per-document table: the term map must then be consumed inside the loop (checked with the postings below)
+		tfOK = true
+	}
+	r.Check(tfOK, "O-3", fk+"#perDoc-at-i", c.P.Pos(ic.Pos()), "perDoc[i] = term frequencies of command i (or consumed in the same iteration)", "the term map returned for command i is not stored at index i of the per-document table")
 	// N = len(db.Commands)
 	nOK := false
 	ssau.ForEachInstr(fn, false, func(in ssa.Instruction) {
@@ -642,6 +646,11 @@ func c03Build(c *Ctx, sx *symx.Ctx, F []string) {
 		}
 	}
 	postOK := false
+	// the fused form: postings are appended in the per-document loop itself, in a
+	// range over the term map indexCommand returned for that very document
+	if pLoop == nil && perDoc == nil {
+		pLoop = docLoop
+	}
 	if pLoop != nil {
 		ssau.ForEachInstr(fn, false, func(in ssa.Instruction) {
 			mu, ok := in.(*ssa.MapUpdate)
@@ -676,6 +685,15 @@ func c03Build(c *Ctx, sx *symx.Ctx, F []string) {
 							case "tf":
 								if ex, ok := st.Val.(*ssa.Extract); ok && ex.Index == 2 {
 									tfOK2 = true
+									if pLoop == docLoop {
+										// fused form: the value ranged over is this document's own term map
+										tfOK2 = false
+										if nx, ok := ex.Tuple.(*ssa.Next); ok {
+											if rg, ok := nx.Iter.(*ssa.Range); ok && rg.X == tf {
+												tfOK2 = true
+											}
+										}
+									}
 								}
 							}
 						}
@@ -693,6 +711,32 @@ func c03Build(c *Ctx, sx *symx.Ctx, F []string) {
 		})
 	}
 	r.Check(postOK, "O-3", fk+"#posting-docID", c.P.Pos(fn.Pos()), "postings[term] = append(postings[term], posting{docID: index of the per-document table, tf: that document's counts})", "postings are not built as posting{docID: i, tf: perDoc[i][term]} appended under the same term")
+}
+
+// viaCell: v is target, or a load of a local variable that only ever holds
+// target (a struct result kept in a variable because its fields are read).
+func viaCell(v, target ssa.Value) bool {
+	if v == target {
+		return true
+	}
+	u, ok := v.(*ssa.UnOp)
+	if !ok || u.Op != token.MUL {
+		return false
+	}
+	al, ok := u.X.(*ssa.Alloc)
+	if !ok {
+		return false
+	}
+	n := 0
+	for _, ref := range *al.Referrers() {
+		if st, ok := ref.(*ssa.Store); ok && st.Addr == ssa.Value(al) {
+			if st.Val != target {
+				return false
+			}
+			n++
+		}
+	}
+	return n > 0
 }
 
 // c03WhoWrites: the index tables are written only by the builder, so that
